@@ -207,6 +207,7 @@ def cont3d_programs():
     for t in q:
         p = cont3d(*t, quick=True)
         out[p["id"]] = p
+    out["cont3d:centre/wrodbox/big/y0"]["cost"] = 60  # may run into the watchdog: schedule first
     for size in ("unit", "tiny"):
         p = cont3d("centre", "wrodbox", size)
         out[p["id"]] = p
@@ -595,24 +596,27 @@ def vis_programs():
 # mode2d
 # ------------------------------------------------------------------------------------------
 def mode2d_programs():
+    """2D compatibility mode versions of the quick programs of the 2-D families (2D mode prunes
+    too: positions drawn in a PolygonalRegion stay `PointInRegionDistribution`s)."""
+    quick_ids = {
+        "cont2d:rect/other/in/unit/y0",
+        "cont2d:rect/other/offl/unit/y0",
+        "rh:gap3/0/90/rv/rh[Q>=c]",
+        "rh:gap3/0/90/dist/rh[Q>=c]/dist[D<=c]",
+        "vis:visible/vd2/full/unit/in/fixed/None",
+        "vis:requireVisible/vd0.8/full/unit/in/fixed/None",
+    }
     out = []
-    for k, p in enumerate(
-        [
-            cont2d("rect", "other", "in", "unit", "y0"),
-            cont2d("notch", "same", "in", "wide", "y40"),
-            rh("gap3", "0/90", "rv", "Q>=c"),
-            rh("gap3", "0/90", "dist", "Q>=c", "D<=c"),
-            vis("visible", "vd2"),
-            vis("requireVisible", "vd0.8"),
-        ]
-    ):
-        p = dict(p)
-        p["id"] = "mode2d:" + p["id"]
-        p["family"] = "mode2d"
-        p["tag"] = "mode2d:" + p["tag"]
-        p["mode2D"] = True
-        p["quick"] = k in (0, 2)
-        out.append(p)
+    for p in cont2d_programs() + rh_programs() + vis_programs():
+        if not p["quick"] or p["dim"] != 2 or "SpheroidShape" in p["text"]:
+            continue
+        q = dict(p)
+        q["quick"] = p["id"] in quick_ids
+        q["id"] = "mode2d:" + p["id"]
+        q["family"] = "mode2d"
+        q["tag"] = "mode2d:" + p["tag"]
+        q["mode2D"] = True
+        out.append(q)
     return out
 
 
